@@ -141,6 +141,25 @@ Fixpoint write_fuel (fuel : nat) (h : heap) (v : value) : bytes :=
 (* nesting depth of values is bounded by the heap size + wrapper depth *)
 Definition write (h : heap) (v : value) : bytes := write_fuel (length h + 64) h v.
 
+(* does the sink stay inside the modelled fragment (every float printable)? *)
+Fixpoint printable_fuel (fuel : nat) (h : heap) (v : value) : bool :=
+  match fuel with
+  | O => true
+  | S f =>
+      match v with
+      | VFloat x => match fmt_float x with Some _ => true | None => false end
+      | VRefl x => printable_fuel f h x
+      | VSlice l =>
+          match hget h l with
+          | Some (HSlice TyIface els) => forallb (printable_fuel f h) els
+          | _ => true
+          end
+      | VRet vs | VList vs => forallb (printable_fuel f h) vs
+      | _ => true
+      end
+  end.
+Definition printable (h : heap) (v : value) : bool := printable_fuel (length h + 64) h v.
+
 (* ---------- isTruthy ---------- *)
 Definition truthy (v : value) : bool :=
   match v with
